@@ -31,6 +31,7 @@ IMPL = {
     "tx_deser": lambda b: _bits().tx.tx_deser(b, include_raw=True),
     "tx_ser": lambda t: txgen.api_ser(txgen.norm_tx(t)),
     "txid": lambda b: _bits().tx.txid(b),
+    "txin_default": lambda o, s: _bits().tx.txin(o, s),          # default sequence argument
 }
 
 
@@ -79,6 +80,7 @@ def gen_cases(rng, tier):
         for tn, tr in (("", b""), ("+own-last4", raw[-4:]), ("+copy", raw), ("+byte-00", b"\x00")):
             out.append(case(cls + tn, "tx_deser", raw + tr))
     for _ in range(30 if T else 10):
+        out.append(case("txin-default-sequence", "txin_default", rng.randbytes(36), rng.randbytes(rng.choice([0, 1, 25]))))
         out.append(case("txid-fn", "txid", rng.randbytes(rng.randrange(0, 100))))
     for _ in range(500 if T else 50):
         out.append(case("rand-bytes", "tx_deser", rng.randbytes(rng.randrange(0, 80))))
@@ -141,6 +143,12 @@ def prop_oracle(c):
     if c["op"] == "txid":
         import bits.tx as m
         return None if m.txid(c["args"][0]) == txgen.hash256(c["args"][0]) else "txid(x) is not SHA256(SHA256(x))"
+    if c["op"] == "txin_default":
+        import bits.tx as m
+        a = c["args"]
+        if m.txin(a[0], a[1]) != a[0] + txgen.ref_var(a[1]) + b"\xff\xff\xff\xff":
+            return "txin(outpoint, script) does not end with the final sequence ffffffff"
+        return None
     if c["op"] != "tx_deser":
         return None
     buf = c["args"][0]
